@@ -30,7 +30,7 @@ def setup_symbolic():
 
 class Rec:
     def __init__(self, i, s, e):
-        self.i, self.reference_start, self.reference_end = i, s, e
+        self.i, self.reference_start, self.reference_end, self.is_unmapped = i, s, e, False
 
     def __lt__(self, o):
         return self.i < o.i
